@@ -58,7 +58,7 @@ def classify_c02(h, st, b, known):
     started = [prod[o] for o in b.started if o in prod]
     roots = [e for e in started if not any(pe is not e and pe.idx in [x.idx for x in started] and e.idx in g.dependents_of(pe) for pe in started)]
     def restat_upstream(e, seen=()):
-        for i in e.exp + g.eff_imp(e):
+        for i in e.exp + g.eff_imp(e) + e.hidden:      # recorded deps are inputs of the scan too
             p = prod.get(i)
             if p is None or p.idx in seen: continue
             if g.eff_restat(p) or restat_upstream(p, seen + (e.idx,)): return True
